@@ -77,6 +77,11 @@ class ManySamples(Contract):
             return Obj("iinfo", {"max": 2 ** 32 - 1, "min": 0})
         if name == "integers" and isinstance(recv, Abstract) and recv.tag == "gen":
             eng.oblige(st, "one_derived_seed_per_sample", BoolVal(kwargs.get("size") is self.n), "wiring", node)
+            # 'the resamples differ': the derived seeds range over (at least) 31 bits whatever the number of samples, so two resamples of one run share a seed with
+            # negligible probability only (numpy contract of Generator.integers: uniform on [low, high))
+            lo, hi = kwargs.get("low", 0), kwargs.get("high", args[1] if len(args) > 1 else (args[0] if args else None))
+            eng.oblige(st, "derived_seeds_range_over_31_bits_or_more", BoolVal(isinstance(lo, int) and isinstance(hi, int) and not isinstance(hi, bool) and hi - lo >= 2 ** 31),
+                       "wiring", node)
             return Abstract("rs", seed=recv.seed)
         if name == "isinstance" and args[0] is self.seed:
             return args[1] == ["int"]
@@ -128,13 +133,16 @@ def _many_samples_replay(self, ob, r):
     real = bs.generate_single_bootstrap_sample
     bs.generate_single_bootstrap_sample = lambda **kw: seen.append(int(kw["random_state"])) or len(seen)
     try:
-        for seed in (0, 1, 12345):
+        for seed in (0, 1, 2, 3, 4, 5, 12345):
             runs = []
             for _ in range(2):
                 del seen[:]
                 bs.generate_bootstrap_samples(n_samples=4, random_state=seed, data=pd.DataFrame({"y_true": [0, 1]}), annotated_functions={},
                                               sensitive_feature_names=["s"], control_feature_names=None)
                 runs.append(list(seen))
+            if len(set(runs[0])) != len(runs[0]):
+                return {"confirmed": True, "key": "C18:generate_bootstrap_samples:repeated-derived-seed", "replay": {"random_state": seed, "n_samples": 4, "seeds": runs[0]},
+                        "what": f"generate_bootstrap_samples(random_state={seed}, n_samples=4) hands the same seed to two resamples: {runs[0]} (identical resamples)"}
             if runs[0] != runs[1] or len(runs[0]) != 4:
                 return {"confirmed": True, "key": "C18:generate_bootstrap_samples:not-reproducible", "replay": {"random_state": seed, "n_samples": 4, "seeds_run_1": runs[0], "seeds_run_2": runs[1]},
                         "what": f"generate_bootstrap_samples(random_state={seed}, n_samples=4) hands different seeds to the resamples in two runs: {runs[0]} vs {runs[1]}"}
